@@ -42,6 +42,9 @@ struct Sc {
     table: Vec<Vec<i32>>, // [ref symbol][query symbol]
     gap: i32,
     gap_extend: i32,
+    // clip penalties configured on the Scoring object: global() / global_banded() are documented to
+    // ignore them, so they are logged but play no role in the specification
+    clips: Option<[i32; 4]>,
 }
 
 fn table_json(t: &[Vec<i32>]) -> Value {
@@ -57,8 +60,12 @@ enum Op {
 }
 
 fn run(log: &mut Log, tag: &str, alpha: &[u8], reference: &[u8], sc: &Sc, ops: &[Op]) {
+    let clipj = match sc.clips {
+        Some(c) => json!([c[0], c[1], c[2], c[3]]),
+        None => json!([]),
+    };
     let cfg = json!({"ref": syms(alpha, reference), "S": table_json(&sc.table), "gap": sc.gap,
-                     "gap_extend": sc.gap_extend});
+                     "gap_extend": sc.gap_extend, "clips": clipj});
     if !log.begin(tag, cfg) {
         return;
     }
@@ -69,7 +76,13 @@ fn run(log: &mut Log, tag: &str, alpha: &[u8], reference: &[u8], sc: &Sc, ops: &
         let j = al.iter().position(|&x| x == b).unwrap();
         tab[i][j]
     };
-    let scoring = Scoring::new(sc.gap, sc.gap_extend, f);
+    let mut scoring = Scoring::new(sc.gap, sc.gap_extend, f);
+    if let Some(c) = sc.clips {
+        scoring.xclip_prefix = c[0];
+        scoring.xclip_suffix = c[1];
+        scoring.yclip_prefix = c[2];
+        scoring.yclip_suffix = c[3];
+    }
     let mut aligner = None;
     let r = log.call("new", json!({}), || {
         let a = Aligner::new(scoring, reference);
@@ -163,7 +176,7 @@ pub fn drive(log: &mut Log) {
             if !log.mine(case) {
                 continue;
             }
-            let sc = Sc { table: mm_table(2, m, mm), gap: g, gap_extend: -7 };
+            let sc = Sc { table: mm_table(2, m, mm), gap: g, gap_extend: -7, clips: if (case % 3) == 0 { log.oblige("scoring_with_clip_penalties"); Some([-1, -1, -1, -1]) } else { None } };
             let mut ops = vec![];
             for q in &strs {
                 ops.push(Op::Global(q.clone()));
@@ -187,7 +200,12 @@ pub fn drive(log: &mut Log) {
         let table: Vec<Vec<i32>> = (0..4)
             .map(|i| (0..4).map(|j| if i == j { rng.range(0, 5) as i32 } else { rng.range(-6, 1) as i32 }).collect())
             .collect();
-        let sc = Sc { table, gap: -(rng.range(0, 5) as i32), gap_extend: -(rng.range(0, 9) as i32) };
+        let clips = if rng.chance(1, 2) {
+            Some([-(rng.range(0, 4) as i32), -(rng.range(0, 4) as i32), -(rng.range(0, 4) as i32), -(rng.range(0, 4) as i32)])
+        } else {
+            None
+        };
+        let sc = Sc { table, gap: -(rng.range(0, 5) as i32), gap_extend: -(rng.range(0, 9) as i32), clips };
         if sc.gap == 0 {
             log.oblige("gap_zero");
         }
@@ -223,6 +241,7 @@ pub fn drive(log: &mut Log) {
             table: mm_table(4, rng.range(1, 3) as i32, -(rng.range(0, 4) as i32)),
             gap: -(rng.range(0, 4) as i32),
             gap_extend: -1,
+            clips: if rng.chance(1, 3) { Some([-1, -2, 0, -1]) } else { None },
         };
         let mut ops = vec![Op::Consensus];
         let nadd = rng.range(1, 6);
